@@ -218,27 +218,30 @@ impl<T: Clone> WithSpec<T> {
         val: T,
     ) {
         if self.val.is_some() {
-            // We already have a value, so need to check.
-            if self.important && !important {
-                // important takes priority over not important.
-                return;
-            }
-            // importance is the same.  Next is checking the origin.
-            {
-                use StyleOrigin::*;
-                match (self.origin, origin) {
-                    (Agent, Agent) | (User, User) | (Author, Author) => {
-                        // They're the same so continue the comparison
-                    }
-                    (mine, theirs) => {
-                        if (important && theirs > mine) || (!important && mine > theirs) {
-                            return;
-                        }
-                    }
+            // We already have a value, so need to check.  The cascade sorts
+            // by importance and origin first:
+            //   agent < user < author < author !important < user !important
+            //   < agent !important
+            // and only then by specificity; a later declaration wins ties.
+            fn level(important: bool, origin: StyleOrigin) -> u8 {
+                let o = match origin {
+                    StyleOrigin::None => 0,
+                    StyleOrigin::Agent => 1,
+                    StyleOrigin::User => 2,
+                    StyleOrigin::Author => 3,
+                };
+                if important {
+                    7 - o
+                } else {
+                    o
                 }
             }
-            // We're now from the same origin an importance
-            if specificity < self.specificity {
+            let mine = level(self.important, self.origin);
+            let theirs = level(important, origin);
+            if theirs < mine {
+                return;
+            }
+            if theirs == mine && specificity < self.specificity {
                 return;
             }
         }
